@@ -88,31 +88,23 @@ func syncPlan(prop, tier string, seed uint64) (runs []syncRun, crashIsViolation 
 	return
 }
 
-func Run(prop string, args []string) {
-	fs := flag.NewFlagSet(prop, flag.ExitOnError)
-	replay := fs.String("replay", "", "replay file")
-	depthOverride := fs.Int("depth", 0, "override depth")
-	fs.Parse(args)
-	pid := strings.TrimSuffix(strings.TrimSuffix(prop, "A"), "B")
-	if *replay != "" {
-		os.Exit(replaySync(*replay))
-	}
-	tier := evidence.Tier()
-	seed := uint64(evidence.Seed())
-	runs, crashIsViol, level, rule := syncPlan(prop, tier, seed)
-	rep := evidence.NewReporter(pid)
-	start := time.Now()
-	cov := map[string]any{}
+// Explore runs the sync-world exploration for prop ("C01", "C02", "C03A", "C05A") and reports
+// violations through rep. It returns model-checking coverage keys (states, transitions,
+// traces_validated_against_impl, samples, runs, ...) for the caller's evidence file; harnessErr
+// is true when a worker failed for reasons that are not property violations.
+func Explore(prop, tier string, seed uint64, depthOverride int, rep *evidence.Reporter) (cov map[string]any, harnessErr bool) {
+	runs, crashIsViol, _, rule := syncPlan(prop, tier, seed)
+	pid := rep.Property
+	cov = map[string]any{}
 	totalStates, totalTrans := 0, 0
 	exhaustive := true
 	var runInfo []map[string]any
 	var samples []any
-	harnessErr := false
 	outcomes := map[string]int{}
 	for _, r := range runs {
 		depth := r.depth
-		if *depthOverride > 0 {
-			depth = *depthOverride
+		if depthOverride > 0 {
+			depth = depthOverride
 		}
 		cfg := xstate.Config{Property: pid, Model: "syncw", Params: r.params.String(), MaxDepth: depth,
 			Deadline: time.Now().Add(r.budget), CrashIsViolation: crashIsViol, Log: os.Stderr}
@@ -154,26 +146,47 @@ func Run(prop string, args []string) {
 	cov["samples"] = samples
 	cov["transition_outcomes"] = outcomes
 	cov["distinct_outcomes"] = len(outcomes)
-	ev := evidence.Evidence{PropertyID: pid, Tier: tier, Seed: int(seed), Level: level, Coverage: cov,
-		Assumptions: []string{
-			"every transition is an execution of the real git-bug code on real go-git repositories on tmpfs; there is no separate model whose traces need validation",
-			"nonces and commit time stamps come from per-actor deterministic seams (build overlay), so equal state keys imply equal object graphs",
-			"in-process go-git transport with unknown 'have' lines dropped stands for stock git transport",
-			"bounded: replicas, bugs and depth as listed per run; beyond the completed depth nothing is claimed",
-		},
-		WallS: time.Since(start).Seconds(), Violations: rep.Viol, Known: rep.KnownSeen()}
+	return cov, harnessErr
+}
+
+// Assumptions are the standing assumptions of the sync-world exploration.
+var Assumptions = []string{
+	"every transition is an execution of the real git-bug code on real go-git repositories on tmpfs; there is no separate model whose traces need validation",
+	"nonces and commit time stamps come from per-actor deterministic seams (build overlay), so equal state keys imply equal object graphs",
+	"in-process go-git transport with unknown 'have' lines dropped stands for stock git transport",
+	"bounded: replicas, bugs and depth as listed per run; beyond the completed depth nothing is claimed",
+}
+
+// Run is the whole check for properties decided by the sync world alone (C01, C02).
+func Run(prop string, args []string) {
+	fs := flag.NewFlagSet(prop, flag.ExitOnError)
+	replay := fs.String("replay", "", "replay file")
+	depthOverride := fs.Int("depth", 0, "override depth")
+	fs.Parse(args)
+	pid := strings.TrimSuffix(strings.TrimSuffix(prop, "A"), "B")
+	if *replay != "" {
+		os.Exit(Replay(*replay))
+	}
+	tier := evidence.Tier()
+	seed := uint64(evidence.Seed())
+	rep := evidence.NewReporter(pid)
+	start := time.Now()
+	cov, harnessErr := Explore(prop, tier, seed, *depthOverride, rep)
+	ev := evidence.Evidence{PropertyID: pid, Tier: tier, Seed: int(seed), Level: "model_checking", Coverage: cov,
+		Assumptions: Assumptions, WallS: time.Since(start).Seconds(), Violations: rep.Viol, Known: rep.KnownSeen()}
 	if err := ev.Write(); err != nil {
 		fmt.Fprintln(os.Stderr, "harness error: cannot write evidence:", err)
 		os.Exit(2)
 	}
-	fmt.Printf("%s: states=%d transitions=%d exhaustive=%v violations=%d wall=%.1fs\n", prop, totalStates, totalTrans, exhaustive, rep.Viol, time.Since(start).Seconds())
+	fmt.Printf("%s: states=%v transitions=%v exhaustive=%v violations=%d wall=%.1fs\n", prop, cov["states"], cov["transitions"], cov["exhaustive"], rep.Viol, time.Since(start).Seconds())
 	if harnessErr && rep.Viol == 0 {
 		os.Exit(2)
 	}
 	rep.Exit()
 }
 
-func replaySync(path string) int {
+// Replay re-executes a sync-world replay file; returns the exit status (1 = reproduced).
+func Replay(path string) int {
 	b, err := os.ReadFile(path)
 	if err != nil {
 		fmt.Fprintln(os.Stderr, err)
